@@ -20,7 +20,7 @@ BUDGET = {'quick': {'examples': 480, 'wall': 200}, 'thorough': {'examples': 2000
 ASSUMPTIONS = ['pattern integral by quadrature of the program\'s own dBi table (32 x 48 nodes, doubled near the margin)',
                'load dissipation from reference load formulas (pv/ref/loads.py)']
 LABEL_FLOORS = {'power-factor>=0.1': 0.3, 'env-ideal': 0.2, 'env-real': 0.15, 'multi-source': 0.3, 'loaded': 0.3, 'curve': 0.08,
-                'absorbing-source': 0.05, 'grounded-end2': 0.03, 'load-on-gnd': 0.02}
+                'absorbing-source': 0.05, 'grounded-end2': 0.03, 'load-on-gnd': 0.005}
 
 
 @st.composite
@@ -195,6 +195,57 @@ def check(case):
             pass
     if not cls and stress and abs(imb) <= 0.25 * app:
         cls = ':within-25-percent:' + '+'.join(sorted(set(stress)))
+    elif not cls and stress and bad and not case['loads']:
+        # beyond the cap: attributed to the thin-wire limit only if the same structure with thin wires (all radii
+        # <= 1e-5 wavelength, equal at the junctions) balances within 5 %
+        try:
+            thin = {k_: v_ for k_, v_ in case.items()}
+            thin['objs'] = [dict(o_) for o_ in case['objs']]
+            rmin = min(min(o_['r'] for o_ in thin['objs']), 1e-5 * 299.8 / case['f'])
+            for o_ in thin['objs']:
+                o_['r'] = rmin
+            m4 = common.solved(thin)
+            I4 = np.array(m4.current)
+            pin4 = sum(0.5 * (v * np.conj(I4[s['_idx']])).real for v, s in zip(V, case['sources']))
+            app4 = sum(0.5 * abs(v * I4[s['_idx']]) for v, s in zip(V, case['sources']))
+            imb4 = pin4 - pin4 * radiated_fraction(m4, ground, 32, 48)
+            if pin4 > 1e-6 * app4 and abs(imb4) <= 0.05 * app4:
+                cls = ':within-25-percent:thin-version-balances:' + '+'.join(sorted(set(stress)))
+        except Exception:
+            pass
+    if env == 'real' and -imb > margin and not cls:
+        # classification only (finding F-C01b): the method solves the currents over an IDEAL ground and applies the
+        # reflection coefficients of the real ground to the far field only.  For horizontal currents low over a poor
+        # reflector the image then cancels less radiation than the input power (taken from the ideal-ground solve)
+        # accounts for.  Attributed to this only if (1) the same antenna balances over ideal ground and (2) an
+        # independent reflection-coefficient model reproduces the reported real-ground far field of these currents
+        try:
+            from ..ref import fields as rf_
+            ideal = {k_: v_ for k_, v_ in case.items()}
+            ideal['env'] = {'kind': 'ideal'}
+            m5 = common.solved(ideal)
+            I5 = np.array(m5.current)
+            pin5 = sum(0.5 * (v * np.conj(I5[s['_idx']])).real for v, s in zip(V, case['sources']))
+            app5 = sum(0.5 * abs(v * I5[s['_idx']]) for v, s in zip(V, case['sources']))
+            imb5 = pin5 - load_power(ideal, m5, topo, I5) - pin5 * radiated_fraction(m5, True, 32, 48)
+            ok1 = abs(imb5) <= 0.015 * app5 and np.abs(I5 - I).max() <= 1e-9 * np.abs(I).max()
+            A = build.mm.Angle
+            m.compute_far_field(A(7.5, 15, 6), A(10, 50, 7), dist=1.0)
+            et, ep = np.array(m.far_field.e_theta).T, np.array(m.far_field.e_phi).T
+            zen, azi = np.array(m.far_field.zen).T, np.array(m.far_field.azi).T
+            kk = 2 * math.pi * case['f'] / 299.8
+            mx = max(np.abs(et).max(), np.abs(ep).max())
+            envd = case['env']
+            circ = envd.get('boundary') == 'circular' or bool(envd.get('radials'))
+            worst = 0.0
+            for ix in np.ndindex(et.shape):
+                a_, b_ = rf_.far_field_real_ground(topo, I, kk, case['f'], float(zen[ix]), float(azi[ix]), envd['media'], circ, envd.get('radials'))
+                worst = max(worst, abs(a_ - et[ix]) / mx, abs(b_ - ep[ix]) / mx)
+            horiz = any(abs((p_.e1 - p_.e0)[0]) + abs((p_.e1 - p_.e0)[1]) > 1e-6 * np.linalg.norm(p_.e1 - p_.e0) for p_ in topo.pulses)
+            if ok1 and worst <= 1e-6 and horiz and -imb <= 0.5 * app:
+                cls = ':ideal-ground-currents-with-real-ground-reflection'
+        except Exception:
+            pass
     if env == 'real':
         if -imb > margin:
             fails.append(('real-ground:more-out-than-in' + cls, detail))
